@@ -75,6 +75,21 @@ CHECKS = {
    technique="exhaustive crash-point and single/double fault enumeration over every filesystem call of 10–14 write histories on the real fsstore (process death before/after each call, torn writes, six errno answers), recovery by a new process, plus stateless exploration of all interleavings of 2–3 threads at filesystem-call granularity up to a preemption bound under a cooperative scheduler",
    text="For every history and every point the writer is killed or a call fails; a fresh store on the same directory must then find every key absent or complete, acknowledged writes present, no partial file outside the staging directory, and must accept new puts. Concurrent writer/writer, writer/reader and writer/Has harnesses are explored over every schedule within the preemption bound, with a raw-os observer evaluating the invariant after every step.",
    note="Power loss (unsynced page cache) is not modelled. Scheduling points are the filesystem calls (the code has no other synchronisation); a free-running -race pass over the same bodies belongs to C20. EEXIST from rename is injected only when the destination exists."),
+ "C08": dict(
+   category="model_checking", design_ref="DESIGN.md §3, §5 C08",
+   technique="bounded-exhaustive enumeration of schema families (every representation strategy × optional/nullable mode vectors × renames; thorough: every outer×inner strategy pair) × typed value spaces × four construction routes × engines (bindnode with inferred Go types; code generated afresh by the working tree's generator and compiled into the check), both views read completely and compared with reference schema semantics",
+   text="For every root type and every value of V(T), each engine builds the value through the type-level builder, the representation builder and dag-cbor/dag-json decoding through the representation prototype; the type-level view, the representation view (all access forms), the encoded bytes and DeepEqual between routes must equal the reference semantics of the strategy.",
+   note="Trusted: reference schema semantics mc/rs (written from the specification's statement of each strategy). Undefined corners (tuple absent-then-present, delimiter inside stringjoin fields, null for Any) are outside V(T). User-declared Go types are exercised in C19."),
+ "C09": dict(
+   category="model_checking", design_ref="DESIGN.md §5 C09",
+   technique="exhaustive single-mutation closure: every conforming tree of every typed value at both levels and every local mutation of it at every position, fed through three routes (entry, key/value, relaxed dag-cbor so duplicate keys reach the assembler) into both engines; verdicts compared with reference acceptance relations",
+   text="accepted ⇔ the reference accepts; every rejection is an error from an assembler call or finish (never a panic, never a silently built violating node); an accepted input reads back as the reference's typed value.",
+   note="Trusted: mc/rs AcceptType/AcceptRepr. Inputs differing from a conforming tree by more than one local mutation are not enumerated. Recorded defects: known_findings.json."),
+ "C13": dict(
+   category="model_checking", design_ref="DESIGN.md §5 C13",
+   technique="programs: schema families generated by gengo.Generate from the working tree and compiled (failure = violation); inputs: the C09 mutation closure; lock-step differential execution of bindnode and generated code",
+   text="Every family in the generator's feature set must generate and compile; on every input of the C09 space bindnode and the generated code must agree on accept/reject, on both views and on the dag-cbor bytes, and neither may panic.",
+   note="Pure differential oracle (shared mistakes are C08/C09's business). Enum, Any and listpairs are outside the generator's feature set."),
 }
 
 NOT_YET = "check not built yet in this round (planned in DESIGN.md §5; will be claimed when its explorer exists)"
